@@ -768,10 +768,21 @@ fn rand_headers(rng: &mut Rng, max: usize, allow_long: bool) -> Vec<(String, Str
     let mut out: Vec<(String, String)> = vec![];
     let mut long_used = false;
     for _ in 0..n {
-        let (k, v) = match rng.below(5) {
+        let (k, v) = match rng.below(6) {
             0 => {
                 let (k, v) = *rng.pick(&STATIC_ROWS);
                 (k.to_string(), v.to_string())
+            }
+            5 => {
+                // a row of the whole static table whose value is a near miss of the table's
+                let rows: Vec<(&str, &str)> = wtverif_harness::static_rows::STATIC_ROWS
+                    .iter()
+                    .copied()
+                    .filter(|(k, v)| !k.starts_with(':') && !v.is_empty())
+                    .collect();
+                let (k, v) = *rng.pick(&rows);
+                let nm = wtverif_harness::near_miss(rng, v.as_bytes());
+                (k.to_string(), String::from_utf8_lossy(&nm).into_owned())
             }
             1 | 2 => {
                 let k = rng.pick(&STATIC_NAMES).to_string();
